@@ -196,7 +196,10 @@ class Real:
         return tree.defs[0].expr[0]
 
     def static(self, expr, o) -> str:
-        return TVNAME[self.infer(expr, o)]
+        try:
+            return TVNAME[self.infer(expr, o)]
+        except Exception as e:                      # a crash of the code under check is an observation
+            return "CRASH:" + type(e).__name__
 
     def globals(self, major, minor, micro, platform, type_checking: bool):
         """eval globals for one target (cached: the conditions have no side effects)"""
@@ -458,13 +461,16 @@ class Checker:
         self.ctx, self.real = ctx, real
         self.ndiff = 0
         self.reported: set = set()
-        self.nviol = 0
+        self.nviol = 0          # concrete failures reported as VIOLATION
+        self.nnfi = 0           # correspondence differences without a failing input
 
     # -- the property on one condition, one target: returns a list of (clause, variant, claimed, got)
     def oracle(self, c: Case, static: str, ma, mi, platform) -> list:
         bad = []
         if static == "U":
             return bad
+        if static.startswith("CRASH"):
+            return [("crash", MICROS[0], None, static)]
         for micro in MICROS:
             g = self.real.globals(ma, mi, micro, platform, False)
             got = self.real.truth(c.code_sub, g)
@@ -495,7 +501,9 @@ class Checker:
         clause, micro, claimed, got = bad[0]
         observed = {"sub": "reach", "class": "static-value-wrong", "clause": clause}
         op = f4_shape(sc.tree, ma, mi)
-        if op is not None:
+        if clause == "crash":
+            observed = {"sub": "reach", "class": "infer-condition-value-crashes", "exception": got}
+        elif op is not None:
             observed = {"sub": "reach", "class": "version-tuple-vs-whole-version_info", "op": OPSYM[op]}
         elif isinstance(sub, ast.BoolOp) and clause == "run-time" and all(b[0] == "run-time" for b in bad):
             table = "and" if isinstance(sub.op, ast.And) else "or"
@@ -517,9 +525,10 @@ class Checker:
                 return True
             self.nviol += 1
         self.reported.add(key)
-        self.ctx.report(observed,
-                        f"`{sc.src}` for target {ma}.{mi}/{platform}: infer_condition_value says {st} "
-                        f"({clause} value {claimed}); eval with version_info={(ma, mi) + tuple(micro)} gives {got}",
+        what = (f"`{sc.src}` for target {ma}.{mi}/{platform}: infer_condition_value raises {got[6:]}" if clause == "crash" else
+                f"`{sc.src}` for target {ma}.{mi}/{platform}: infer_condition_value says {st} "
+                f"({clause} value {claimed}); eval with version_info={(ma, mi) + tuple(micro)} gives {got}")
+        self.ctx.report(observed, what,
                         {"sub": "reach", "src": sc.src, "whole_condition": c.src, "target": [ma, mi], "platform": platform,
                          "always_true": list(at), "always_false": list(af), "micro": list(micro), "static": st, "clause": clause, "eval": got})
         return True
@@ -542,7 +551,8 @@ class Checker:
                 rt = real.truth(c.code_sub, g)
                 g2 = real.globals(ma, mi, micro, platform, True)
                 mt = real.truth(c.code_sub, g2)
-                ok_prop = static == "U" or ((rt == "raise" or (rt == "1") == RT_CLAIM[static])
+                ok_prop = static == "U" or (not static.startswith("CRASH")
+                                            and (rt == "raise" or (rt == "1") == RT_CLAIM[static])
                                             and (mt == "raise" or (mt == "1") == MT_CLAIM[static]))
                 if m_static == static and m_rt == rt and m_mt == mt and ok_prop:
                     continue
@@ -554,8 +564,8 @@ class Checker:
                 if m_static != static or m_rt != rt or m_mt != mt:
                     self.ndiff += 1
                     ctx.count("disagreements_checked")
-                    if not found and self.nviol < 6:
-                        self.nviol += 1
+                    if not found and self.nnfi < 4:
+                        self.nnfi += 1
                         side = "mypy (infer_condition_value)" if m_static != static else "run-time (eval)"
                         ctx.violation(f"reachability correspondence broken on the {side} side for `{c.src}` target {ma}.{mi}/{platform}: "
                                       f"real static {static} / model {m_static}; eval {rt} / model {m_rt}; mypy-time eval {mt} / model {m_mt}; "
@@ -588,7 +598,14 @@ def block_flags(ctx: Ctx, real: Real, cases: list[Case], target, platform, nativ
             "class six:\n    PY2 = False\n    PY3 = True\nclass m:\n    XT = True\n    XF = False\n"
             "class os:\n    version_info = (9, 9)\n    platform = 'zz'\n") + \
         "".join(f"if {c.src}:\n    a{i} = 1\nelse:\n    b{i} = 1\n" for i, c in enumerate(cases))
-    res = build.build([BuildSource("blk.py", "blk", text)], o, flush_errors=lambda f, m, s: None, fscache=FileSystemCache())
+    try:
+        res = build.build([BuildSource("blk.py", "blk", text)], o, flush_errors=lambda f, m, s: None, fscache=FileSystemCache())
+    except BaseException as e:          # mypy turns an internal error into SystemExit
+        if isinstance(e, KeyboardInterrupt):
+            raise
+        if type(e).__name__ == "CompileError":          # a blocking (syntax) error in the generated module: ours
+            raise ToolFailure("generated module of if statements does not compile: " + str(e)[:300])
+        return "crash: " + type(e).__name__ + " " + str(e)[:200]      # type: ignore[return-value]
     tree = res.files["blk"]
     ifs = [d for d in tree.defs if type(d).__name__ == "IfStmt"]
     if len(ifs) != len(cases):
@@ -599,8 +616,12 @@ def block_flags(ctx: Ctx, real: Real, cases: list[Case], target, platform, nativ
 # -------------------------------------------------------------------------------------------------- main
 def run(ctx: Ctx) -> None:
     t0 = time.time()
-    proved = ctx.prove("MypyVerif.Props.C12Reach", MODEL_FILES)
-    ctx.trusted("reachability models: mypy/reachability.py infer_condition_value, consider_sys_version_info, consider_sys_platform, "
+    from translate import reach_tables
+    reach_tables.main()
+    proved = ctx.prove("MypyVerif.Props.C12Reach", MODEL_FILES + ["MypyVerif/Gen/ReachTables.lean"])
+    ctx.trusted("translator translate/reach_tables.py (inverted_truth_mapping, reverse_op read from the module; and/or branches, "
+                "fixed_comparison and special names tabulated by running the real functions) → theorem tables_match_source",
+                "reachability models: mypy/reachability.py infer_condition_value, consider_sys_version_info, consider_sys_platform, "
                 "fixed_comparison, contains_* transcribed by hand; CPython tuple/int/str comparison, indexing and positive-step slicing",
                 "reachability correspondence harness harness/c12/reach.py (source → model tokens via CPython's ast; eval with a fake sys)",
                 "assumed at run time: TYPE_CHECKING = MYPY = PY2 = False, PY3 = True, --always-true/--always-false names have the promised value",
@@ -653,13 +674,20 @@ def run(ctx: Ctx) -> None:
             ctx.sample({"reach_condition": mid.src, "tokens": " ".join(mid.tokens), "model": model[len(cases) // 2]})
 
     # observation point: Block.is_unreachable after a real build
-    btarget = targets[len(targets) // 2]
+    # a target new enough for every piece of syntax the generators use (f-strings, 1_0)
+    btarget = rng.choice([t for t in targets if t[1] >= 8] or [(3, 12)])
     blk_lines = [model_line(real, c, "linux", [(btarget, MICROS[0])], (), ()) for c in prepared_for_blocks]
     blk_model = run_driver(ctx, blk_lines)
     for native in (False, True):
         flags = block_flags(ctx, real, prepared_for_blocks, btarget, "linux", native)
         if flags is None:
             ctx.coverage["reach_native_parser"] = "ast_serialize not installed — skipped"
+            continue
+        if isinstance(flags, str):
+            ctx.violation(f"a build of a module of {len(prepared_for_blocks)} generated `if` statements ({'native' if native else 'default'} parser, "
+                          f"target {btarget}) ends with {flags}", {"sub": "reach", "broken": "build of generated if statements crashes",
+                                                                     "target": list(btarget), "native_parser": native, "error": flags},
+                          found_input=False)
             continue
         bdiff = 0
         for c, ml, (bu, eu) in zip(prepared_for_blocks, blk_model, flags):
@@ -718,7 +746,9 @@ def replay(ctx: Ctx, det: dict) -> int:
         rt = real.truth(c.code_sub, real.globals(ma, mi, mc, platform, False))
         mt = real.truth(c.code_sub, real.globals(ma, mi, mc, platform, True))
         print(f" eval with version_info={(ma, mi) + tuple(mc)}: run-time {rt}, with TYPE_CHECKING=True {mt}")
-        if st != "U" and ((rt != "raise" and (rt == "1") != RT_CLAIM[st]) or (mt != "raise" and (mt == "1") != MT_CLAIM[st])):
+        if st.startswith("CRASH"):
+            rc = 1
+        elif st != "U" and ((rt != "raise" and (rt == "1") != RT_CLAIM[st]) or (mt != "raise" and (mt == "1") != MT_CLAIM[st])):
             rc = 1
     print(" property:", "FAILS" if rc else "holds")
     return rc
